@@ -72,12 +72,12 @@ class ConvHooks(Hooks):
         if q.endswith(':Filter.rebin'):
             me = args[0]
             hidden = (F,)
-            self.calls.append(('rebin', me, args[1:], node))
+            self.calls.append(('rebin', me, args[1:], node, len(interp.assumed)))
             return Obj(repo.cls('filter.filter', 'Filter'), {'name': 'FNAME', '_wavelength': Arr((), sym('fcw', F), unit=unit_atom('micron')),
                                                              '_nu': args[1] if len(args) > 1 else None,
                                                              '_r': Arr((N,), sym('R', N, F), unit=num(1))})
         if q.endswith(':ConvolvedFluxes.sort_to_match') or q.endswith(':ConvolvedFluxes.write'):
-            self.calls.append((fi.name, args[0], args[1:], node))
+            self.calls.append((fi.name, args[0], args[1:], node, len(interp.assumed)))       # last: how many guards had been passed when the call happened
             return None
         return NotImplemented
 
